@@ -314,13 +314,55 @@ def close_all(executed: typing.List[Executed]):
         e.lab.close()
 
 
+def _ir_ctype_order(u: dict) -> typing.List[typing.Tuple[str, str]]:
+    """(typedef key, half) in the order lab.Lab enumerates codec types: per root, sorted by (full name, version)."""
+    out = []
+    for r in u["roots"]:
+        tds = sorted(r["types"], key=lambda td: (".".join(td["ns"] + [td["name"]]), (td["major"], td["minor"])))
+        for td in tds:
+            k = ".".join(td["ns"] + [td["name"]]) + f".{td['major']}.{td['minor']}"
+            out += [(k, "Request"), (k, "Response")] if td["kind"] == "service" else [(k, "")]
+    return out
+
+
+def prune_universe(u: dict, ti: int) -> typing.Tuple[dict, int]:
+    """Drop every type outside the dependency closure of codec type #ti; returns (pruned universe, new index)."""
+    order = _ir_ctype_order(u)
+    key, half = order[ti]
+    tds = {".".join(td["ns"] + [td["name"]]) + f".{td['major']}.{td['minor']}": td for r in u["roots"] for td in r["types"]}
+    keep: typing.Set[str] = set()
+    todo = [key]
+    while todo:
+        k = todo.pop()
+        if k in keep:
+            continue
+        keep.add(k)
+        todo += [d for d in dsdlgen._refs_in(tds[k]["body"]) if d in tds]
+    roots = []
+    for r in u["roots"]:
+        ts = [td for td in r["types"] if ".".join(td["ns"] + [td["name"]]) + f".{td['major']}.{td['minor']}" in keep]
+        if ts:
+            roots.append({"name": r["name"], "types": ts})
+    pruned = {"roots": roots}
+    return pruned, _ir_ctype_order(pruned).index((key, half))
+
+
 def single_case_job(job: dict, ci: int, keys: typing.List[str]) -> dict:
-    """Replay unit: the universe, the one failing case (plus its history predecessors for kept-object cases)."""
+    """
+    Replay unit: the failing case (plus its history predecessors for kept-object cases) on the universe pruned to the
+    dependency closure of the failing type.
+    """
     case = job["cases"][ci]
     cases = [case]
     if case.get("mode") == "K":
         cases = [c for c in job["cases"][: ci + 1] if c.get("mode") == "K" and c["ti"] == case["ti"]]
-    return {"universe": job["universe"], "targets": keys, "cases": cases, "cap_overrides": job.get("cap_overrides", {})}
+    try:
+        pruned, new_ti = prune_universe(job["universe"], case["ti"])
+        cases = [dict(c, ti=new_ti) for c in cases]
+        u = pruned
+    except Exception:  # keep the full universe if the IR ordering assumption does not hold
+        u = job["universe"]
+    return {"universe": u, "targets": keys, "cases": cases, "cap_overrides": job.get("cap_overrides", {})}
 
 
 def option_coverage(jobs: typing.List[dict]) -> dict:
